@@ -3,9 +3,23 @@
 package vmc
 
 import (
+	"crypto/sha256"
 	"fmt"
 	"sync"
 )
+
+// stateID is the stored form of a canonical state key: its 128-bit SHA-256 prefix
+// (canonical dumps of whole routing tables run to kilobytes; a few million of them
+// do not fit in memory). Two different states are merged only on a hash collision,
+// probability about n^2 / 2^129 for n states -- the same trade TLC makes with 64 bits.
+type stateID [16]byte
+
+func hashKey(k string) stateID {
+	h := sha256.Sum256([]byte(k))
+	var id stateID
+	copy(id[:], h[:16])
+	return id
+}
 
 // ---------------------------------------------------------------------------
 // Stateless DFS over choice sequences with a deviation bound.
@@ -217,9 +231,9 @@ func BFS[E any](r *Result, step func(hist []E) (key string, enabled []E), opts B
 		hist    []E
 		enabled []E
 	}
-	seen := map[string]struct{}{}
+	seen := map[stateID]struct{}{}
 	k0, en0 := step(nil)
-	seen[k0] = struct{}{}
+	seen[hashKey(k0)] = struct{}{}
 	frontier := []node{{nil, en0}}
 	st.States = 1
 	depth := 0
@@ -241,7 +255,7 @@ func BFS[E any](r *Result, step func(hist []E) (key string, enabled []E), opts B
 			}
 		}
 		type res struct {
-			key     string
+			key     stateID
 			enabled []E
 			done    bool
 		}
@@ -274,7 +288,7 @@ func BFS[E any](r *Result, step func(hist []E) (key string, enabled []E), opts B
 						return
 					}
 					k, en := step(jobs[i].hist)
-					results[i] = res{k, en, true}
+					results[i] = res{hashKey(k), en, true}
 				}
 			}()
 		}
